@@ -59,6 +59,7 @@ class ModbusDevice:
         self.mbap_length = 'correct'
         self.refuse_connect_at = set()
         self.reject_at = {}    # request index -> Modbus exception code answered instead of executing the request
+        self.head_only_at = {}  # request index -> number of bytes of the answer that arrive (the rest is lost)
         self.kern = None
         self.connects = []
         self.sent = []
@@ -122,6 +123,10 @@ class ModbusDevice:
         else:
             f = wire.rtu_frame(rq['unit'], pdu)
         dt = self.delay_fn(self, rq) if self.delay_fn else self.latency
+        keep = self.head_only_at.get(len(self.log) - 1)
+        if keep is not None:
+            self.kern.at(now + dt, sock, ('data', f[:keep]))
+            return
         p = self.fragment_at
         if p and len(f) > p + 1 and rq['fn'] == 3 and pdu[0] == 3:
             # the answer arrives in two pieces (first one carries the header up to its length field)
